@@ -92,9 +92,14 @@ Valid(cl, ch) == ch.full \/ ch.i <= ch.j
 Sendable(cl) == {ch \in Changes(cl) : Valid(cl, ch) /\ Len(ClientApply(cl, ch)) <= MaxLen}
 Pick(S) == IF TrackHist THEN {RandomElement(S)} ELSE S
 
-\* what goes on the wire for one change
+\* what goes on the wire for one change.  `len` is the deprecated `rangeLength` some clients still send: the length of the
+\* replaced text as the CLIENT counts it - in the client's text a CRLF break is two units (the server's copy has no CR,
+\* so a server that wants to use this field has to count on the client's side of the wire)
+ClientLen(u) == IF u = "crlf" THEN 2 ELSE ColLen(u)
+RECURSIVE SumLen(_, _, _)
+SumLen(d, lo, hi) == IF lo > hi THEN 0 ELSE ClientLen(d[lo]) + SumLen(d, lo + 1, hi)
 Wire(cl, ch) == IF ch.full THEN [full |-> TRUE, t |-> ch.t]
-                ELSE [full |-> FALSE, s |-> PosOf(cl, ch.i), e |-> PosOf(cl, ch.j), t |-> ch.t]
+                ELSE [full |-> FALSE, s |-> PosOf(cl, ch.i), e |-> PosOf(cl, ch.j), t |-> ch.t, len |-> SumLen(cl, ch.i + 1, ch.j)]
 
 Note(rec) == IF TrackHist THEN TRUE ELSE PrintT(<<"CASE", ToJson(rec)>>)
 
@@ -135,12 +140,19 @@ DidChange2 ==
                           /\ hist' = IF TrackHist THEN Append(hist, rec) ELSE hist
     /\ UNCHANGED open
 
+\* Something happens to ANOTHER document of the package (its gleam.toml or a sibling module is opened, or reported changed
+\* on disk): neither side's text of THIS document changes.  (The driver renders `other` as such a notification.)
+OtherDoc == /\ open /\ TrackHist
+            /\ \E k \in Pick({"open_toml", "watched_toml", "open_sibling"}) :
+                  hist' = Append(hist, [pre |-> client, changes |-> <<>>, posts |-> <<server>>, other |-> k])
+            /\ UNCHANGED <<open, client, server>>
+
 \* history mode only: print the finished behaviour and start over (one simulation run = many histories)
 Finish == /\ TrackHist /\ Len(hist) = HistLen
           /\ PrintT(<<"CASE", ToJson([hist |-> hist])>>)
           /\ open' = FALSE /\ client' = <<>> /\ server' = <<>> /\ hist' = <<>>
 
-Next == \/ (~TrackHist \/ Len(hist) < HistLen) /\ (DidOpen \/ DidChange1 \/ DidChange2)
+Next == \/ (~TrackHist \/ Len(hist) < HistLen) /\ (DidOpen \/ DidChange1 \/ DidChange2 \/ OtherDoc)
         \/ Finish
 
 Spec == Init /\ [][Next]_vars
